@@ -5,7 +5,7 @@ from .common import check_imported, Run, corpus_cases, generic_replay, check_spe
 from .c03 import parse_def
 
 PROP = "C14"
-MODULE = "PLS.Props.C14P"     # imports PLS.Props.C14I, which imports PLS.Props.C14
+MODULE = "PLS.Props.C14M"     # imports PLS.Props.C14P (C14I, C14)
 THEOREMS = ["PLS.C14_classification", "PLS.C14_editable_in_workspace", "PLS.C14_editable_outside_workspace",
             "PLS.C14_entry_point_no_traversal", "PLS.C14_traversal_examples", "PLS.C14_pytest11_section_only",
             "PLS.C14_package_name_examples", "PLS.C14_pth_stem_rule", "PLS.C14_plugin_dir_files",
@@ -13,7 +13,8 @@ THEOREMS = ["PLS.C14_classification", "PLS.C14_editable_in_workspace", "PLS.C14_
             "PLS.C14_any_query_order", "PLS.C07_imported_warm_eq_cold", "PLS.C14_coherent_after_analysis", "PLS.C14_query_keeps_bound",
             "PLS.ImpC.nested_state", "PLS.ImpC.nested_res", "PLS.ImpC.top_query",
             "PLS.C14_plugin_files_are_the_closure", "PLS.C08_plugin_files_order_independent", "PLS.ScanC.importStep_inv",
-            "PLS.ScanC.importScanFile_inv", "PLS.ScanC.analyzeAll_same"]
+            "PLS.ScanC.importScanFile_inv", "PLS.ScanC.analyzeAll_same",
+            "PLS.C14_module_before_package", "PLS.C14_package_when_no_module", "PLS.C14_dotted_path_through_directories"]
 RULE = ("(A) random import graphs over fixture modules (depth <= 4, fan-out <= 3, relative levels 1-3, absolute "
         "imports, packages via __init__.py, star / explicit / aliased imports, pytest_plugins incl. "
         "last-assignment-wins, cycles and self-imports) indexed by the real scan; resolve / available fixtures from "
